@@ -389,6 +389,10 @@ func (in *Interp) installIntrinsics() {
 		}
 		return nil
 	}
+	I["vmaporder"] = func(in *Interp, args []Value) Value {
+		in.mapOrderOverride = int(args[0].(*Term).Int())
+		return nil
+	}
 	I["vsymbolic"] = func(in *Interp, args []Value) Value { return Bool(true) }
 }
 
